@@ -80,8 +80,8 @@ CHECKS['C18'] = (OTHER, 'symbolic execution of the real ConeCyl object (_rebuild
     'Pressure and harmonic edge-load closed forms, Sanders/FSDT/iso models and the reduced solve are outside (stated in evidence); trig atoms per argument class with S^2+C^2=1.',
     'DESIGN.md section 9.2 / 4 C18')
 CHECKS['C16'] = (OTHER, 'symbolic execution from source of the *_linear.pyx kernels of 13 shell models and of the real ConeCyl._calc_linear_matrices (pi symbolic, trigonometric arguments canonicalised by the solver) ; relational identities per entry with z3 qfnra-nlsat; exact-rational replay plus an independent float replay on the compiled kernels',
-    'Bounded symbolic verification of the relational clauses: cone at zero angle = cylinder kernels (k0, kG0), kG0 split/homogeneity in (Fc,P,T), isotropic short-cuts = general models, written lower-triangle entries = mirror, laminate matrix independent of the number of evaluations, and the elastic edge-restraint part of k0 (through the real _calc_linear_matrices -> get_linear_matrices -> fk0edges with symbolic restraint values) = Hessian of the edge-spring energy of the package own displacement field (exact 4-node circumferential rule, n2 = 1); the energy-Hessian clause for the shell part of k0 and PSD are NOT decided (no exact meridional integrator) and are listed as outside in evidence.',
-    'Series orders (1,1,1)/(2,2,2)/(2,2,1)/(3,3,1), sections s <= 2; bcn Donnell modules not importable; four recorded findings in .pyx kernels (bc2 Donnell cone, fsdt Sanders bcn).',
+    'Bounded symbolic verification of the relational clauses: cone at zero angle = cylinder kernels (k0, kG0), kG0 split/homogeneity in (Fc,P,T), isotropic short-cuts = general models, written lower-triangle entries = mirror, laminate matrix independent of the number of evaluations, and the elastic edge-restraint part of k0 (through the real _calc_linear_matrices -> get_linear_matrices -> fk0edges with symbolic restraint values) = Hessian of the edge-spring energy of the package own displacement field (exact 4-node circumferential rule, n2 = 1); and (vi) the shell part of k0 = Hessian of the strain energy of the package own linear strain field (cfstrain_* executed on exact trigonometric-polynomial values, integration over the surface in closed form; for cones with the radius frozen at the middle of each of the s meridional sections, which is the kernels own definition), (vii) one ConeCyl object re-defined between two evaluations = a fresh object; PSD is NOT decided (listed as outside).',
+    'Series orders (2,2,1)/(2,2,2)/(3,2,3)/(3,3,1)/(3,1,1), sections s <= 2; recorded findings: missing tilt-amplitude coupling in every model, FSDT and Sanders-bc3 strain routines inconsistent with k0, iso short-cuts for m1 >= 3, bc2 cone kernel; bcn Donnell modules not importable; four recorded findings in .pyx kernels (bc2 Donnell cone, fsdt Sanders bcn).',
     'DESIGN.md section 9.2 / 4 C16')
 CHECKS['C17'] = (OTHER, 'symbolic execution from source of calc_k0L / calc_kG / calc_kLL / calc_fint_0L_L0_LL and their integrand callbacks (cfk0L, cfkG, cfkLL, cffint, cfN, cfstrain_*) of 12 *_nonlinear.pyx modules at ONE symbolic integration point with a symbolic weight (integratev stubbed), and of the real ConeCyl._calc_NL_matrices / calc_fint; the tangent is compared entry by entry with the exact five-point stencil of the internal force (a cubic polynomial in the amplitudes) with z3 qfnra-nlsat; exact-rational replay and float replay of the same identity on the compiled kernels',
     'Bounded symbolic verification at integrand level (hence for every grid and both rules): tangent k0L+k0L^T+kLL+kG = Jacobian of the non-linear internal force per entry, symmetry, fint(0)=0 and kT(0)=k0 for the perfect shell, arbitrary initial-imperfection slopes at the point, partitioned kTuu = d calc_fint/d(free amplitudes) through the real ConeCyl methods for every subset of prescribed amplitudes; chunking of integratev over 1..8 threads by bounded execution (enumeration, stated).',
